@@ -254,7 +254,7 @@ def main(pid, tier, seed):
         cov.update(result.get("coverage", {}))
         cov["states"] = st_a + result.get("states", 0)
         cov["transitions"] = tr_a + result.get("transitions", 0)
-        cov["spec_states"] = st_a
+        cov["spec_states"] = st_a + int(result.get("coverage", {}).get("spec_states", 0) or 0)    # leg-A runs made inside run() (table exports)
         cov["trace_states"] = result.get("states", 0)
         cov["traces_validated_against_impl"] = result.get("traces", 0)
         cov["leg_a"] = leg_a
@@ -352,3 +352,45 @@ def apalache(ctx, module, obligations, negatives=(), cinit="CInit", nxt="ANext",
             res["obligations"].append({"name": name, "discharged": False, "timeout": True})
     shutil.rmtree(out_dir, ignore_errors=True)
     return res, fails
+
+
+def tlaps(ctx, proof_module, deps, timeout=900):
+    """Check a TLAPS proof module (tla/proofs/<proof_module>) about the specification modules `deps` (tla/<dep>) with tlapm, in a
+    scratch directory without a fingerprint cache.  Returns (record for the evidence, failures); a timeout is reported only."""
+    import re
+    import shutil
+    import subprocess
+    if shutil.which("tlapm") is None:
+        return {"ran": False, "why": "tlapm not on PATH"}, []
+    d = os.path.join(ctx.work, "tlaps_" + proof_module.replace(".tla", ""))
+    shutil.rmtree(d, ignore_errors=True)
+    os.makedirs(d)
+    shutil.copy(os.path.join(tlc.TLA_DIR, "proofs", proof_module), d)
+    for dep in deps:
+        shutil.copy(os.path.join(tlc.TLA_DIR, dep), d)
+    rec, fails = {"ran": True, "module": "proofs/" + proof_module, "about": list(deps)}, []
+    t0 = time.time()
+    try:
+        p = subprocess.run(["tlapm", "--cleanfp", proof_module], cwd=d, stdout=subprocess.PIPE, stderr=subprocess.STDOUT, text=True, timeout=timeout)
+        m = re.search(r"All (\d+) obligations? proved", p.stdout)
+        rec["proved"] = bool(m)
+        rec["obligations"] = int(m.group(1)) if m else 0
+        if not m:
+            fails.append("tlapm did not prove %s: %s" % (proof_module, p.stdout[-400:]))
+    except subprocess.TimeoutExpired:
+        rec["proved"], rec["timeout"] = False, True
+    rec["seconds"] = round(time.time() - t0, 1)
+    shutil.rmtree(d, ignore_errors=True)
+    return rec, fails
+
+
+def attach_tlaps(ctx, res, proofs):
+    """run TLAPS proof modules and record them in the evidence (coverage.tlaps); an unproved module is a machinery failure"""
+    out = []
+    for module, deps in proofs:
+        rec, fails = tlaps(ctx, module, deps)
+        out.append(rec)
+        res.setdefault("failures", [])
+        res["failures"] = list(res["failures"]) + fails
+    res.setdefault("coverage", {})["tlaps"] = out
+    return res
